@@ -364,6 +364,61 @@ func c15FrequencyLarge(c *caseCtx) {
 	c.sample(M{"criteria": n, "ordering": ordering, "seeds": N, "least_important_omitted": least, "most_important_omitted": most})
 }
 
+// C16 with the probability orderings and TWO criteria (weights 1 and 2, importance = weight): reversal with ratio 0.5 selects
+// exactly one; over the seeds weakestByProbability picks the less important one more often, strongestByProbability the more
+// important one (with two elements "the opposite order" has no middle to hide in)
+func c16FrequencyTwo(c *caseCtx) {
+	ordering := []string{"weakestByProbability", "strongestByProbability"}[c.idx%2]
+	method := []string{"majorityHeuristic", "aspectEliminationHeuristic", "electreIII"}[(c.idx/2)%3]
+	g := &genReq{method: method}
+	crit := []interface{}{M{"id": "c0", "type": "gain"}, M{"id": "c1", "type": "gain"}}
+	g.crits = []critSpec{{id: "c0"}, {id: "c1"}}
+	mp := M{}
+	switch method {
+	case "electreIII":
+		mp["electreCriteria"] = M{"c0": M{"k": 1.0}, "c1": M{"k": 2.0}}
+	case "aspectEliminationHeuristic":
+		mp["weights"] = M{"c0": 1.0, "c1": 2.0}
+		mp["function"] = "thresholds"
+		mp["params"] = M{"thresholds": []interface{}{M{"c0": 1.0, "c1": 1.0}}}
+	default:
+		mp["weights"] = M{"c0": 1.0, "c1": 2.0}
+	}
+	g.altIds, g.chose = []string{"a0", "a1", "a2"}, []string{"a0", "a1"}
+	g.M = M{"preferenceFunction": method, "knownAlternatives": []interface{}{M{"id": "a0", "criteria": M{"c0": 1.0, "c1": 4.0}}, M{"id": "a1", "criteria": M{"c0": 2.0, "c1": 3.0}}, M{"id": "a2", "criteria": M{"c0": 5.0, "c1": 1.0}}},
+		"choseToMake": []interface{}{"a0", "a1"}, "criteria": crit, "methodParameters": mp}
+	const N = 1500
+	counts := map[string]int{}
+	base := c.rng.Intn(1 << 20)
+	for s := 0; s < N; s++ {
+		g.M["biases"] = []interface{}{M{"name": "preferenceReversal", "props": M{"ordering": ordering, "ratio": 0.5, "randomSeed": base + s}}}
+		d := decide(g.body(), true)
+		c.count("evaluations", 1)
+		if !d.OK || len(d.Trace.Bias) != 1 {
+			c.violate("frequency-rejected", "frequency battery request rejected: "+d.Err, M{"request": g.M})
+			return
+		}
+		rl, _ := d.Trace.Bias[0].Report["reversedPreferenceCriteria"].([]interface{})
+		if len(rl) != 1 {
+			c.violate("reversal-count", fmt.Sprintf("ratio 0.5 of two criteria but %d reversed", len(rl)), M{"request": g.M})
+			return
+		}
+		counts[strOr(rl[0].(map[string]interface{}), "id", "")]++
+	}
+	c.count("two_criteria_frequency_batteries", 1)
+	c.count("nontrivial", 1)
+	c.distinct(fmt.Sprintf("freqTwo|%s|%s", method, ordering))
+	ok := moreOften(counts["c0"], counts["c1"])
+	if ordering == "strongestByProbability" {
+		ok = moreOften(counts["c1"], counts["c0"])
+	}
+	if !ok {
+		c.violate("probability-ordering", fmt.Sprintf("%s over %d seeds (%s, two criteria of importance 1 and 2): reversed %v", ordering, N, method, counts), M{"request": g.M, "counts": counts})
+		return
+	}
+	c.sample(M{"method": method, "ordering": ordering, "seeds": N, "reversed_counts": counts})
+}
+
 // ---------------------------------------------------------------------------------------------
 // C16: reversing the same criteria twice restores the data
 
